@@ -337,6 +337,19 @@ class Runner(object):
                     ok = all(gen.norm(body['data'].get(p)) == {str(k): v for k, v in gen.norm(self.model.t['ipv4'][p]).items()} for p in present)
                 if not ok:
                     self.bad('rest-rib-differs', feats, 'POST adj-rib-%s for %s answered %s %s' % ('in' if self.side == 'recv' else 'out', present, code, json.dumps(body)[:300]), seq)
+            # ... and of what is not in it: a prefix that was withdrawn (or never announced) is not shown as a route of the table
+            # (the adj-rib-in view answers with the longest match - a less specific route may be named, never the absent prefix itself)
+            absent = sorted(p for p in PFX if p not in self.model.t['ipv4'])
+            if absent and self.rib:
+                code, body = w.rest('POST', 'adj-rib-in' if self.side == 'recv' else 'adj-rib-out', json_body={'data': absent})
+                self.stats['rest_absent_queries'] = self.stats.get('rest_absent_queries', 0) + 1
+                if code == 200 and body and body.get('status') is True and isinstance(body.get('data'), dict):
+                    for p_ in absent:
+                        ans = body['data'].get(p_)
+                        shown = (isinstance(ans, dict) and ans.get('prefix') == p_) if self.side == 'recv' else bool(ans)
+                        if shown:
+                            self.bad('rest-rib-shows-absent', feats, 'POST adj-rib-%s for %s, which is not in the table, answered %s' % (
+                                'in' if self.side == 'recv' else 'out', p_, json.dumps(ans)[:200]), seq)
         # --- versions
         if ver is None or self.ver is None:
             self.bad('version-endpoint', feats, 'version endpoint unavailable', seq)
